@@ -146,7 +146,7 @@ pub fn replay(case: &Value) -> Result<Verdict, String> {
     }))
 }
 
-const PREFIXES: [&str; 6] = ["", "-true ", "-name x -o ", "-uid 1 -a ! ", "-true -name 'a b' -uid 1 ", "( -true ) -o "];
+const PREFIXES: [&str; 9] = ["", "-true ", "-name x -o ", "-uid 1 -a ! ", "-true -name 'a b' -uid 1 ", "( -true ) -o ", "-name café ", "-name 日本語 -o -iname 'é😀' ", "-name\t'x\ny'\n"];
 const SUFFIXES: [&str; 4] = ["", " -print", " -o -name y -print", " -a -uid 2"];
 
 pub fn build(kw: &str, lang: Lang, missing: bool, second: bool, bad: usize, pre: usize, suf: usize, paren: bool) -> Option<Case> {
@@ -201,7 +201,18 @@ pub fn run(ctx: &Ctx) -> Report {
     let rnd = run_shards(16, |shard| {
         let mut st = Stats::new();
         // unknown words (no keyword as a prefix) at random positions
-        let word = prop_oneof!["-[b-np-z][a-z-]{0,12}", "[a-z]{1,6}", "-[A-Z][a-z]{1,5}", "--[a-z]{1,5}", "[0-9]{1,3}", "=[a-z]{1,3}"].prop_filter("keyword prefix", |w| {
+        let word = prop_oneof![
+            4 => "-[b-np-z][a-z-]{0,12}",
+            2 => "[a-z]{1,6}",
+            1 => "-[A-Z][a-z]{1,5}",
+            1 => "--[a-z]{1,5}",
+            1 => "[0-9]{1,3}",
+            1 => "=[a-z]{1,3}",
+            // long words, non-ASCII words
+            2 => (prop::sample::select(vec![15usize, 31, 32, 33, 63, 64, 65, 100, 127, 128, 129, 255, 256, 257, 600]), prop::sample::select(vec!["", "é", "日", "😀"]), 0usize..4).prop_map(|(n, mb, sh)| format!("-z{}{}{}", "q".repeat(n.saturating_sub(2 + sh)), mb, "r".repeat(sh + 3))),
+            1 => "-[b-np-z][a-zéü日]{1,8}",
+        ]
+        .prop_filter("keyword prefix", |w| {
             !crate::checks::c05::KEYWORDS.iter().any(|k| w.starts_with(k)) && !w.starts_with("nope") && !w.contains(')')
         });
         let strat = (word, 0usize..PREFIXES.len(), 0usize..SUFFIXES.len(), any::<bool>()).prop_map(|(w, pre, suf, paren)| {
